@@ -406,6 +406,28 @@ func (fc *funcContext) translateStmt(stmt ast.Stmt, label *types.Label) {
 				}
 			}
 		case len(s.Lhs) == len(s.Rhs):
+			// Phase one of a tuple assignment: the operands of index expressions and
+			// pointer indirections on the left are evaluated before any assignment is
+			// carried out (and before the right-hand sides), so 'i, a[i] = 1, x'
+			// stores into a[old i].
+			for i, lhs := range s.Lhs {
+				switch l := astutil.RemoveParens(lhs).(type) {
+				case *ast.IndexExpr:
+					if fc.pkgCtx.Types[l.Index].Value != nil {
+						continue // constant index
+					}
+					indexVar := fc.newLocalVariable("_index")
+					fc.Printf("%s", fc.translateAssign(fc.newIdent(indexVar, fc.typeOf(l.Index)), l.Index, true))
+					s.Lhs[i] = fc.setType(&ast.IndexExpr{X: l.X, Lbrack: l.Lbrack, Index: fc.newIdent(indexVar, fc.typeOf(l.Index)), Rbrack: l.Rbrack}, fc.typeOf(l))
+				case *ast.StarExpr:
+					if _, isIdent := l.X.(*ast.Ident); isIdent {
+						continue
+					}
+					ptrVar := fc.newLocalVariable("_ptr")
+					fc.Printf("%s", fc.translateAssign(fc.newIdent(ptrVar, fc.typeOf(l.X)), l.X, true))
+					s.Lhs[i] = fc.setType(&ast.StarExpr{Star: l.Star, X: fc.newIdent(ptrVar, fc.typeOf(l.X))}, fc.typeOf(l))
+				}
+			}
 			tmpVars := make([]string, len(s.Rhs))
 			for i, rhs := range s.Rhs {
 				tmpVars[i] = fc.newLocalVariable("_tmp")
